@@ -1,6 +1,7 @@
 """C47 -- mixed-type comparisons are order-independent and exact for integers (and decimals).
 Tie: X (correspondence): the Gallina model Model/NumCoerce.v is compared with the real
 comparison_coercion and with real coerced+planned+evaluated comparisons on every observation."""
+import os
 import vlib
 from vlib import Check, zlit, coq_bool
 
@@ -17,6 +18,12 @@ OPSYM = ["=", "<>", "<", "<=", ">", ">="]
 KEY_TRUNC = ("C47-F1 Decimal32/Decimal64 compared with Int32/Int64/UInt32/UInt64 is coerced to the INTEGER type "
              "(decimal_coercion has no decimal wide enough, numerical_coercion then matches its integer arm): "
              "the decimal operand is truncated before the comparison, e.g. Decimal32(5,2) 1.50 = Int32 1 is true")
+
+
+KEY_WRAP = ("C47-F2 (builds without overflow checks, i.e. --release) Decimal256(p1,s1) vs Decimal256(p2,s2) with p1 + (max(s1,s2) - s1) >= 128: "
+            "arrow-cast make_upscaler computes `(input_precision as i8) + delta_scale` in i8, the sum wraps negative, the cast is treated as "
+            "infallible (mul_wrapping, no precision check) and the comparison returns a wrong answer instead of an error, "
+            "e.g. Decimal256(76,0) 6 < Decimal256(76,76) 0.5 is true")
 
 
 def modelled(t):
@@ -157,31 +164,63 @@ def run(pid, tier, seed, replay):
             fail("inl", "IN list on mixed integer types disagrees with pairwise equality: %s IN list of %s" % (c["a"], c["b"]), c)
     ck.log("oracle: failing classes %s (known decimal-vs-integer truncation rows: %d)" % (nfail, wrong_trunc))
 
+    # ------------------------------------------------------------ thorough: the arithmetic of a --release build
+    wrap_rows, wrong_wrap = [], 0
+    if tier == "thorough":
+        rcb, outb, dtb = vlib.sh(["cargo", "build", "--offline", "--profile", "nochk", "--bin", "c47"],
+                                 cwd=os.path.join(vlib.HARNESS, "h_expr"), timeout=3000)
+        ck.log("cargo build h_expr --profile nochk (no overflow checks): rc=%d (%.0fs)" % (rcb, dtb))
+        if rcb != 0:
+            ck.problem("tie", "nochk harness build failed:\n" + outb[-2000:])
+        else:
+            rcw, sow, dtw = vlib.sh([os.path.join(vlib.TARGET, "nochk", "c47"), "--seed", str(seed), "--mode", "wrap"], timeout=900)
+            wrap_rows = [c for c in vlib.jsonl(sow) if c["k"] == "cmp"]
+            ck.log("wrap run: %d observations (%.1fs)" % (len(wrap_rows), dtw))
+            if rcw != 0 or not wrap_rows:
+                ck.problem("tie", "wrap run ended abnormally rc=%d: %s" % (rcw, sow[-800:]))
+            for c in wrap_rows:
+                if "x" in c and "res" in c:
+                    a, b, x, y = c["a"], c["b"], c["x"], c["y"]
+                    exp = [f(x * 10 ** scale(b), y * 10 ** scale(a)) for f in OPS]
+                    if c["res"] != exp:
+                        k = next(i for i in range(6) if c["res"][i] != exp[i])
+                        wrong_wrap += 1
+                        fail("wrap", KEY_WRAP, dict(c, expected=exp, sql=sql_of(a, x, b, y, k), build="overflow-checks = false"), limit=3)
+                if c.get("panic") or c.get("plan_panic"):
+                    ck.problem("tie", "panic in the build without overflow checks: %s" % str(c)[:300])
+            ck.log("wrap run: %d wrong answers (known class C47-F2)" % wrong_wrap)
+
     # ------------------------------------------------------------ correspondence: model vs observations
     terms, origin = [], []
+    big_terms, big_origin = [], []
+
+    def cmp_terms(rows_in, ctor):
+        groups = {}
+        for c in rows_in:
+            groups.setdefault((c["a"], c["b"]), []).append(c)
+        for (a, b), rows in groups.items():
+            first = rows[0]
+            if "x" not in first:
+                o = "OutPanic" if first.get("plan_panic") else "OutPlanErr"
+                big_terms.append("%s %s %s None [(0, 0, %s)]" % (ctor, coq_ty(a), coq_ty(b), o))
+                big_origin.append(first)
+                continue
+            rows = [r for r in rows if r["x"] is not None and r["y"] is not None]
+            ct = first["ct"]
+            ctt = coq_opt_ty(ct) if modelled(ct) and "|" not in ct else "(Some TNull)"   # TNull never matches: flags it
+            for i in range(0, len(rows), 50):
+                chunk = rows[i:i + 50]
+                big_terms.append("%s %s %s %s [%s]" % (ctor, coq_ty(a), coq_ty(b), ctt, "; ".join(
+                    "(%s, %s, %s)" % (zlit(r["x"]), zlit(r["y"]), out_term(r)) for r in chunk)))
+                big_origin.append({"a": a, "b": b, "ct": ct, "rows": chunk[:3], "nrows": len(chunk)})
+
+    cmp_terms(cmp_rows, "CCmp")
+    cmp_terms(wrap_rows, "CCmpWrap")
     for c in ty_rows:
         if modelled(c["a"]) and modelled(c["b"]) and (c["r"] is None or c["r"] == "PANIC" or modelled(c["r"])):
             pan = c["r"] == "PANIC"
             terms.append("CTy %s %s %s %s" % (coq_ty(c["a"]), coq_ty(c["b"]), "None" if pan else coq_opt_ty(c["r"]), coq_bool(pan)))
             origin.append(c)
-    groups = {}
-    for c in cmp_rows:
-        groups.setdefault((c["a"], c["b"]), []).append(c)
-    for (a, b), rows in groups.items():
-        first = rows[0]
-        if "x" not in first:
-            o = "OutPanic" if first.get("plan_panic") else "OutPlanErr"
-            terms.append("CCmp %s %s None [(0, 0, %s)]" % (coq_ty(a), coq_ty(b), o))
-            origin.append(first)
-            continue
-        rows = [r for r in rows if r["x"] is not None and r["y"] is not None]
-        ct = first["ct"]
-        ctt = coq_opt_ty(ct) if modelled(ct) and "|" not in ct else "(Some TNull)"   # TNull never matches: flags it
-        for i in range(0, len(rows), 60):
-            chunk = rows[i:i + 60]
-            terms.append("CCmp %s %s %s [%s]" % (coq_ty(a), coq_ty(b), ctt, "; ".join(
-                "(%s, %s, %s)" % (zlit(r["x"]), zlit(r["y"]), out_term(r)) for r in chunk)))
-            origin.append({"a": a, "b": b, "ct": ct, "rows": chunk[:3], "nrows": len(chunk)})
     for c in cases:
         if c["k"] == "lit" and "res" in c and None not in c["res"]:
             terms.append("CLit %s %s %s %s %s %s [%s]" % (coq_ty(c["a"]), coq_ty(c["b"]), coq_bool(c["lit_left"]), zlit(c["lit"]),
@@ -191,15 +230,15 @@ def run(pid, tier, seed, replay):
             terms.append("CInl %s %s %s %s %s [%s]" % (coq_ty(c["a"]), coq_ty(c["b"]), coq_bool(c["neg"]), vlib.zlist(c["xs"]),
                                                         vlib.zlist(c["list"]), "; ".join(coq_bool(b) for b in c["res"])))
             origin.append(c)
-    import os
     if os.path.exists(os.path.join(vlib.COQ, "Model/NumCoerce.vo")):
         pre = "From DF Require Import Base.Prelude Model.NumCoerce.\nOpen Scope Z_scope."
-        bad, log, dt = vlib.coq_eval_cases(pre, "c47_case", "c47_check", terms, shard=400, tag="c47")
-        ck.log("correspondence: %d model evaluations, %d disagreements (%.1fs)" % (len(terms), len(bad), dt))
-        if bad:
-            first = bad[0]
-            detail = origin[first] if isinstance(first, int) else log
-            ck.problem("tie", "model and implementation disagree on %d case(s); first: %s" % (len(bad), str(detail)[:900]))
+        for (tt, oo, shard, tag) in ((big_terms, big_origin, 16, "c47cmp"), (terms, origin, 500, "c47")):
+            bad, log, dt = vlib.coq_eval_cases(pre, "c47_case", "c47_check", tt, shard=shard, tag=tag)
+            ck.log("correspondence (%s): %d model evaluations, %d disagreements (%.1fs)" % (tag, len(tt), len(bad), dt))
+            if bad:
+                first = bad[0]
+                detail = oo[first] if isinstance(first, int) else log
+                ck.problem("tie", "model and implementation disagree on %d case(s); first: %s" % (len(bad), str(detail)[:900]))
     else:
         ck.problem("tie", "Model/NumCoerce.vo missing: correspondence not evaluated")
 
@@ -220,14 +259,17 @@ def run(pid, tier, seed, replay):
         "case_kinds": kinds,
         "integer_type_pairs": len(int_pairs),
         "exhaustive": False,
-        "model_evaluations": len(terms),
+        "model_evaluations": len(terms) + len(big_terms),
+        "rows_compared_with_model": sum(o.get("nrows", 1) for o in big_origin),
         "known_truncation_rows": wrong_trunc,
+        "release_arithmetic_rows": len(wrap_rows),
+        "known_decimal256_wrap_rows": wrong_wrap,
         "samples": [sample_int, sample_dec, next(c for c in cases if c["k"] == "lit"), next(c for c in ty_rows if c["a"] == "U64" and c["b"] == "I8")],
         "trusted_base": vlib.TRUSTED_COMMON + [
             "Model/NumCoerce.v was written by hand from binary.rs / arrow-cast 59.2.0 (not generated); every run compares it with the implementation on "
             "all ordered type pairs of the universe and on every evaluated row",
-            "the harness is built with overflow-checks (the i8 overflow panics predicted by comparison_ovf/eval_ovf are observed there); the wrapping "
-            "(release) results of the model in those cases are not observed by the harness",
+            "the quick tier observes the overflow-checks build only (the i8 overflow panics predicted by comparison_ovf/eval_ovf); the wrapping "
+            "(release) results of the model for those Decimal256 cases are compared with a build without overflow checks in the thorough tier only",
             "float operands are outside the model (opaque tags): only the coerced type and implementation-side symmetry are checked for them",
         ],
     })
